@@ -25,7 +25,7 @@ TInit == l = 2 /\ Rec[1].k = "Reset" /\ InitWith(Rec[1].cfg)     \* the first ev
 TReset == /\ IsEvent("Reset")
           /\ Cfg' = Rec[l].cfg
           /\ cache' = [t \in Trees |-> {}] /\ applied' = [t \in Trees |-> <<>>]
-          /\ bmFinal' = FALSE /\ finalised' = "no"
+          /\ bmFinal' = FALSE /\ txAcc' = FALSE /\ finalised' = "no"
 
 TAdd == /\ IsEvent("Add")
         /\ AddSegment(Rec[l].tree, Rec[l].idx, Rec[l].kind)
@@ -43,7 +43,14 @@ TFinalize == /\ IsEvent("Finalize")
                 THEN ~Complete /\ UNCHANGED vars
                 ELSE Finalize /\ finalised' = Rec[l].res
 
-TNext == (TReset \/ TAdd \/ TApply \/ TFinalize) /\ l' = l + 1
+\* the restart sequence after a refused attempt (desegmenter.reset, reset_pibd_head,
+\* reset_chain_head_to_genesis, reset_prune_lists)
+TRestart == /\ IsEvent("Restart")
+            /\ Rec[l].res = "ok"
+            /\ Reset
+            /\ ProjOK(Rec[l].proj)
+
+TNext == (TReset \/ TAdd \/ TApply \/ TFinalize \/ TRestart) /\ l' = l + 1
 
 TraceInit == TInit
 
